@@ -39,6 +39,10 @@ func runC09(c *Ctx) {
 	c09R13(c)
 	c01R4As(c, c.R.Rule("R11", "K3 (= C01.R4) v2: a destination (or DLQ) that answers with fewer acks than records written — empty ack responses — never makes DestinationTask.Do return nil: the pass fails instead of acking unconfirmed records", 4))
 	c08R16As(c, c.R.Rule("R14", "K3 (= C08.R16) no reply shape of a conditional processor misattributes results: every return of RunnableProcessor.Process lies behind the `cond == nil` edge or the merge decision, so surplus results never yield an unmerged list that the engines apply to a record the plugin never saw", 1))
+	c09R15(c)
+	c09R16(c)
+	c09R17(c)
+	c09R18(c)
 }
 
 // c09R10: only the source task's read may end a pass quietly.
@@ -525,7 +529,7 @@ func c09R5(c *Ctx) {
 				}
 			}
 			// method values impl.M passed as first argument of runSandbox
-			if id, ok := call.Fun.(*ast.Ident); ok && id.Name == "runSandbox" && len(call.Args) > 0 {
+			if id, ok := call.Fun.(*ast.Ident); ok && strings.HasPrefix(id.Name, "runSandbox") && len(call.Args) > 0 {
 				if se, ok := call.Args[0].(*ast.SelectorExpr); ok {
 					if inner, ok := se.X.(*ast.SelectorExpr); ok && inner.Sel.Name == "impl" {
 						n++
@@ -558,7 +562,7 @@ func c09R5(c *Ctx) {
 				if call.Fun == ast.Expr(se) {
 					okCtx = true
 				}
-				if id, ok := call.Fun.(*ast.Ident); ok && id.Name == "runSandbox" && len(call.Args) > 0 && call.Args[0] == ast.Expr(se) {
+				if id, ok := call.Fun.(*ast.Ident); ok && strings.HasPrefix(id.Name, "runSandbox") && len(call.Args) > 0 && call.Args[0] == ast.Expr(se) {
 					okCtx = true
 				}
 				return true
@@ -880,4 +884,241 @@ func c09R13(c *Ctx) {
 		}
 	}
 	c.R.Check(ok && n > 0, r, "returnResponse: the error follows the response unconditionally", c.Pos(fn.Pos()), "plain send after the response arm", "after the response was delivered, returnResponse can return without an unconditional send of the error (or no response arm was found): the caller's second, bare receive never completes and the engine goroutine that called the builtin connector hangs", true)
+}
+
+func errorRecordErrField(c *Ctx) *types.Var {
+	return c.W.ExtField("github.com/conduitio/conduit-processor-sdk", "ErrorRecord", "Error")
+}
+
+// c09R15: F61/F62. An in-process (builtin) processor is a plugin too. Its sdk.ErrorRecord may carry a nil Error; the nil
+// nack reason reads as "no failure" further down — with the DLQ disabled the record is dropped and acked (v1) or skipped
+// by the cumulative ack (v2), with it enabled the DLQ record builder dereferences nil and the process panics. Both
+// engines substitute a reason at the point where the reply is turned into a nack.
+func c09R15(c *Ctx) {
+	r := c.R.Rule("R15", "K3/K6 a nil ErrorRecord.Error never becomes the nack reason (both engines): where ProcessorNode.handleProcessedRecord / ProcessorTask.markBatchRecords take the reason from sdk.ErrorRecord.Error, the nil case is tested and replaced by a constructed error", 2)
+	errF := errorRecordErrField(c)
+	if errF == nil {
+		c.R.Unresolved(r, "conduit-processor-sdk.ErrorRecord.Error")
+		return
+	}
+	for _, t := range []struct{ rel, name string }{{pStream, "(*ProcessorNode).handleProcessedRecord"}, {pFunnel, "(*ProcessorTask).markBatchRecords"}} {
+		fn := c.SSA(r, t.rel, t.name)
+		if fn == nil {
+			continue
+		}
+		var loads []ssa.Value
+		for _, b := range fn.Blocks {
+			for _, in := range b.Instrs {
+				if v, ok := in.(ssa.Value); ok {
+					if _, f := kit.FieldBase(v); f != nil && kit.SameField(f, errF) {
+						loads = append(loads, v)
+					}
+					if fl, ok := in.(*ssa.Field); ok && kit.SameField(kit.FieldOf(fl), errF) {
+						loads = append(loads, fl)
+					}
+				}
+			}
+		}
+		if len(loads) == 0 {
+			c.R.Fail(r, t.name+": reads ErrorRecord.Error", c.Pos(fn.Pos()), "no read of sdk.ErrorRecord.Error found")
+			continue
+		}
+		tested := false
+		// the value tested may be the field read itself or the slot it was just stored into (errs[i])
+		cands := append([]ssa.Value{}, loads...)
+		for _, b := range fn.Blocks {
+			for _, in := range b.Instrs {
+				if u, ok := in.(*ssa.UnOp); ok && u.Op == token.MUL && u.Type().String() == "error" {
+					if ia, ok := u.X.(*ssa.IndexAddr); ok {
+						if refs := ia.Referrers(); refs != nil {
+							for _, rf := range *refs {
+								if st, ok := rf.(*ssa.Store); ok {
+									for _, l := range loads {
+										if kit.Unwrap(st.Val) == l {
+											cands = append(cands, u)
+										}
+									}
+								}
+							}
+						}
+						// a different IndexAddr instruction of the same slot
+						for _, l := range loads {
+							_ = l
+						}
+						cands = append(cands, u)
+					}
+				}
+			}
+		}
+		for _, l := range cands {
+			for _, e := range kit.NilEdges(l, true) {
+				// behind the nil edge a constructed error is produced (a call in the region)
+				for _, b := range fn.Blocks {
+					if !(b == e.To || e.To.Dominates(b)) {
+						continue
+					}
+					for _, in := range b.Instrs {
+						if cl, ok := in.(*ssa.Call); ok && kit.ErrIndexOfCall(cl) >= 0 || func() bool { cl, ok := in.(*ssa.Call); return ok && cl.Type().String() == "error" }() {
+							tested = true
+						}
+					}
+				}
+			}
+		}
+		c.R.Check(tested, r, t.name+": a nil ErrorRecord.Error is replaced before it becomes the nack reason", c.Pos(fn.Pos()), "nil case tested", "the nack reason is taken from sdk.ErrorRecord.Error without testing it for nil: an error record without an error (a builtin processor's bug) nacks with a nil reason — with the DLQ disabled the failed record is dropped and acked to the source (v1) or skipped for good by the cumulative ack (v2), with the DLQ enabled dlqRecord dereferences the nil reason and the process panics", true)
+	}
+}
+
+// c09R16: F63. A source record with an EMPTY position must not look like "the stop position": before any stop was
+// requested stopPosition is nil and bytes.Equal(nil, empty) is true — the node returned stop.reason (nil) and ended
+// silently, dropping every later record. The post-send comparison only counts once a stop was requested.
+func c09R16(c *Ctx) {
+	r := c.R.Rule("R16", "K3 an empty record position is not the stop position: in SourceNode.Run every return of n.stop.reason lies behind the stop control message (directly, or through a flag that is set only there)", 2)
+	fn := c.SSA(r, pStream, "(*SourceNode).Run")
+	cmt := c.Fn(r, pStream, "(*Message).ControlMessageType")
+	if fn == nil || cmt == nil {
+		return
+	}
+	g := kit.NewGates()
+	for _, call := range kit.CallsTo(fn, Set(cmt)) {
+		v := call.Value()
+		g.AddEdges(kit.CmpEdges(fn, func(b *ssa.BinOp) (bool, bool) {
+			if b.X == ssa.Value(v) || b.Y == ssa.Value(v) {
+				switch b.Op {
+				case token.EQL:
+					return true, true
+				case token.NEQ:
+					return true, false
+				}
+			}
+			return false, false
+		}), "ControlMessageType() == stop")
+	}
+	// a bool flag (loop phi) whose only `true` comes from behind those edges
+	for _, b := range fn.Blocks {
+		for _, in := range b.Instrs {
+			phi, ok := in.(*ssa.Phi)
+			if !ok || !types.Identical(phi.Type().Underlying(), types.Typ[types.Bool]) {
+				continue
+			}
+			okFlag, hasTrue := true, false
+			for i, e := range phi.Edges {
+				if kit.IsBoolConst(e, true) {
+					hasTrue = true
+					pred := phi.Block().Preds[i]
+					if pass, _ := kit.MustPass(pred.Instrs[len(pred.Instrs)-1], g); !pass {
+						okFlag = false
+					}
+				}
+			}
+			if okFlag && hasTrue {
+				g.AddEdges(kit.CondEdges(phi, true), "stopRequested")
+			}
+		}
+	}
+	n := 0
+	for _, ret := range kit.Returns(fn) {
+		v := kit.RetVal(ret, 0)
+		if !fieldNamed(v, "reason") {
+			continue
+		}
+		n++
+		c.Dominated(r, "SourceNode.Run: stops with stop.reason only after a stop was requested", []ssa.Instruction{ret}, g, "the stop control message (or the flag set there)")
+	}
+	c.R.Check(n >= 2, r, "SourceNode.Run: returns of stop.reason", c.Pos(fn.Pos()), "found", "fewer than two returns of n.stop.reason found", true)
+}
+
+// c09R17: F65. In the arch-v2 engine "position == nil" marks the tail pieces of a split record; a source record that
+// itself has an empty position makes Batch.SplitRecord panic in the worker as soon as a processor splits it (and could
+// never be acked anyway). SourceTask.Do refuses such a batch before any task sees it.
+func c09R17(c *Ctx) {
+	r := c.R.Rule("R17", "K3 v2: no record with an empty position enters the task graph: SourceTask.Do returns a fatal error behind the len(record.Position) == 0 edge, before the batch is filled", 1)
+	fn := c.SSA(r, pFunnel, "(*SourceTask).Do")
+	fatal := c.Fn(r, pCerrors, "FatalError")
+	if fn == nil || fatal == nil {
+		return
+	}
+	edges := kit.LenEdges(fn, func(v ssa.Value) bool { return fieldNamed(v, "Position") }, 0, 0)
+	found := false
+	for _, e := range edges {
+		for _, ret := range kit.Returns(fn) {
+			if !(ret.Block() == e.To || e.To.Dominates(ret.Block())) {
+				continue
+			}
+			if cl, ok := kit.RetVal(ret, 0).(*ssa.Call); ok && kit.CalleeOf(cl.Common()) == fatal {
+				found = true
+			}
+		}
+	}
+	c.R.Check(found, r, "SourceTask.Do: an empty record position is refused with a fatal error", c.Pos(fn.Pos()), "FatalError behind len(Position)==0", "SourceTask.Do hands records with an empty position on: Batch uses a nil position to mark the tail pieces of a split record, so a fan-out processor splitting such a record makes Batch.SplitRecord panic in the worker goroutine (the process dies) — before the CodeEmptySourcePosition guards in Worker.Ack/Nack are ever reached", true)
+}
+
+// c09R18: F64. Every call into a builtin connector runs inside the panic sandbox — except Run, which was started in a
+// bare goroutine: a panic in a builtin connector's Run loop took the whole process down. The goroutine now calls Run
+// through a recovering wrapper.
+func c09R18(c *Ctx) {
+	r := c.R.Rule("R18", "K4 a panic in a builtin connector's Run does not crash the engine: in the builtin source/destination adapters no goroutine invokes impl.Run directly without a deferred recover (the call goes through a wrapper that has one)", 2)
+	const pBuiltin = "pkg/plugin/connector/builtin"
+	p := c.W.Pkg(pBuiltin)
+	if p == nil {
+		c.R.Unresolved(r, pBuiltin)
+		return
+	}
+	hasRecover := func(f *ssa.Function) bool {
+		for _, b := range f.Blocks {
+			for _, in := range b.Instrs {
+				d, ok := in.(*ssa.Defer)
+				if !ok {
+					continue
+				}
+				if cl := closureOf(d); cl != nil {
+					for _, cb := range cl.Blocks {
+						for _, ci := range cb.Instrs {
+							if call, ok := ci.(*ssa.Call); ok {
+								if bi, ok := call.Call.Value.(*ssa.Builtin); ok && bi.Name() == "recover" {
+									return true
+								}
+							}
+						}
+					}
+				}
+			}
+		}
+		return false
+	}
+	for _, name := range []string{"(*sourcePluginAdapter).Run", "(*destinationPluginAdapter).Run"} {
+		fn := c.SSA(r, pBuiltin, name)
+		if fn == nil {
+			continue
+		}
+		okAll, seen := true, false
+		for _, lit := range kit.WithAnon(fn) {
+			for _, b := range lit.Blocks {
+				for _, in := range b.Instrs {
+					ci, ok := in.(ssa.CallInstruction)
+					if !ok {
+						continue
+					}
+					// direct invoke of impl.Run
+					if ci.Common().IsInvoke() && ci.Common().Method.Name() == "Run" && fieldNamed(ci.Common().Value, "impl") {
+						seen = true
+						if !hasRecover(lit) {
+							okAll = false
+						}
+					}
+					// impl.Run handed to a wrapper as a bound method value
+					for _, a := range ci.Common().Args {
+						if mc, ok := a.(*ssa.MakeClosure); ok && strings.HasSuffix(mc.Fn.Name(), "Run$bound") {
+							seen = true
+							h := ci.Common().StaticCallee()
+							if h == nil || !hasRecover(h) {
+								okAll = false
+							}
+						}
+					}
+				}
+			}
+		}
+		c.R.Check(seen && okAll, r, name+": impl.Run runs under a recover", c.Pos(fn.Pos()), "sandboxed", "the builtin adapter starts impl.Run in a goroutine without a deferred recover: a panic in a builtin connector's Run loop is a goroutine panic nobody can recover — the whole Conduit process dies, all pipelines with it", true)
+	}
 }
